@@ -646,6 +646,9 @@ func (w *rworld) saveOldest() bool {
 	if len(points) > 64 {
 		points = append(points[:32], points[len(points)-32:]...)
 	}
+	if len(b.ops) > 20000 && len(points) > 1 {
+		points = points[len(points)-1:] // (tens of thousands of operations: one crash point, right before the last write)
+	}
 	if len(b.ops) > 2000 && len(points) > 4 {
 		points = append(points[:2], points[len(points)-2:]...) // (a round of thousands of operations: re-executing it is expensive)
 	}
